@@ -42,6 +42,10 @@ def plan(tier, seed):
         jobs.append({"func": "ws_subprotocols", "fw": fw, "name": "ws-sub-batched/%s" % fw, "args": {"stride": 2 if q else 1, "offset": seed % 2 if q else 0, "names": BATCHED_MIX}})
         for sh in range(2 if q else 6):
             jobs.append({"func": "traffic", "fw": fw, "name": "traffic/%s/%d" % (fw, sh), "args": {"seed": seed * 1000 + i * 100 + sh, "n": 300 if q else 2000}})
+            if sh == 0:
+                # library endpoint against a raw peer that announces each possible maximum (the asyncio factories cannot lower their own, so a
+                # library pair never meets a limit below 16 MiB there)
+                jobs.append({"func": "announced_limits", "fw": fw, "name": "announced/%s" % fw, "args": {"top": 11 if q else 14, "offset": seed}})
             jobs.append({"func": "corruption", "fw": fw, "name": "corrupt/%s/%d" % (fw, sh), "args": {"seed": seed * 1000 + i * 100 + 50 + sh, "n": 500 if q else 3000}})
     return jobs
 
@@ -525,6 +529,71 @@ def check_traffic(c):
         w.close()
 
 
+def announced_limits(col, top, offset):
+    """enumerated: RawSocket library client and server (this framework) x every length nibble 0..top the raw peer can announce (2^9 .. 2^(9+top)
+    octets) x serializer (rotating) x messages of limit-1 / limit / limit+1 / 3*limit octets: a message within the announced maximum goes out as one
+    frame with the right prefix and payload, a longer one is refused with an error and not a single octet of it is written"""
+    from harness import drv
+    from autobahn.exception import PayloadExceededError
+    from autobahn.wamp.exception import SerializationError
+    rs, _ = _mods()
+    d = drv.get_driver()
+    for role in ("client", "server"):
+        for nib in range(0, top + 1):
+            limit = 2 ** (9 + nib)
+            ser = SERS[(nib + offset + (role == "server")) % 4]
+            log = []
+            if role == "server":
+                f = rs.WampRawSocketServerFactory(lambda: RecSession(log), serializers=ser_objs([ser]))
+                ep = d.connect(f)
+                ep.feed(bytes([0x7F, (nib << 4) | SER_ID[ser], 0, 0]))
+            else:
+                f = rs.WampRawSocketClientFactory(lambda: RecSession(log), serializer=ser_objs([ser])[0])
+                ep = d.connect(f)
+                d.settle()
+                ep.take()
+                ep.feed(bytes([0x7F, (nib << 4) | SER_ID[ser], 0, 0]))
+            d.settle()
+            ep.take()
+            case = {"check": "announced", "role": role, "nibble": nib, "ser": ser}
+            tr = [x[1] for x in log if x[0] == "open"]
+            if len(tr) != 1:
+                raise Violation("C13|announced|session-not-attached", "log %r escaped %r" % (log[:2], ep.escaped), case)
+            tr = tr[0]
+            ser_obj = tr._serializer
+            for delta in (-1, 0, 1, 2 * limit):
+                m, size = sized_message(ser_obj, limit + delta)
+                before = len(ep.t.written)
+                try:
+                    d.call(lambda m=m: tr.send(m))
+                    raised = None
+                except (PayloadExceededError, SerializationError, ValueError) as e:
+                    raised = e
+                except Exception as e:
+                    if in_autobahn(e):
+                        raise Violation("C13|announced|send-raised|" + exc_key(e), repr(e), dict(case, size=size))
+                    raise
+                d.settle()
+                wrote = b"".join(dta for _, dta in ep.t.written[before:])
+                if size > limit:
+                    if wrote:
+                        raise Violation("C13|traffic|over-limit-message-sent", "rs/%s %s: %d octets written for a message of %d octets although the peer announced %d" % (
+                            ser, role, len(wrote), size, limit), dict(case, size=size))
+                    if raised is None:
+                        raise Violation("C13|traffic|over-limit-send-silently-dropped", "size %d limit %d: no exception" % (size, limit), dict(case, size=size))
+                else:
+                    if raised is not None:
+                        raise Violation("C13|traffic|within-limit-send-refused|" + exc_key(raised), "size %d limit %d: %r" % (size, limit, raised), dict(case, size=size))
+                    if len(wrote) != 4 + size or struct.unpack("!L", wrote[:4])[0] != size or wrote[4:] != ser_obj.serialize(m)[0]:
+                        raise Violation("C13|announced|frame-differs", "size %d: wrote %d octets, prefix %r" % (size, len(wrote), wrote[:4]), dict(case, size=size))
+                col.case(True, enum=True, cls=["announced/%s" % role, "announced/" + ("over" if size > limit else "within")],
+                         sample=dict(case, size=size) if delta == 1 else None)
+            if ep.escaped or d.loop_errors:
+                raise Violation("C13|announced|exception-escaped", repr((ep.escaped or d.loop_errors)[0])[:300], case)
+    d.close()
+    col.exhaustive.append("RawSocket announced maximum: {client, server} x length nibbles 0..%d x sizes limit-1/limit/limit+1/3*limit" % top)
+
+
 # ---------------------------------------------------------------- (d) corruption
 
 def corruption(col, seed, n):
@@ -706,6 +775,10 @@ def replay(col, case):
     if kind == "coalesced":
         replay_coalesced(c)
         col.case()
+        return
+    if kind == "announced":
+        announced_limits(col, max(11, c.get("nibble", 0)), 0)
+        announced_limits(col, max(11, c.get("nibble", 0)), SERS.index(c["ser"]) if c.get("ser") in SERS else 1)
         return
     c.pop("check", None)
     if "fault" in c:
